@@ -261,7 +261,9 @@ var modelUnspecified = []string{"error message text", "non-canonical integer arg
 // provenanceStep: values also come into being by DUMP + RESTORE (of any type, with and without a deadline, over an
 // existing key or not). Every sequence-driven check mixes these in, so that the commands under test also meet values
 // that were not built by the usual write commands.
-func provenanceSource(restore []string) string { return strings.TrimPrefix(restore[3], DumpOf("")) }
+func provenanceSource(restore []string) string {
+	return strings.TrimPrefix(strings.TrimPrefix(restore[3], DumpOf("")), CorruptDumpOf(""))
+}
 
 func provenanceStep(rng *rand.Rand, keys []string) []string {
 	src, dst := pick(rng, keys), pick(rng, keys)
@@ -270,6 +272,10 @@ func provenanceStep(rng *rand.Rand, keys []string) []string {
 	}
 	ttl := pick(rng, []string{"0", "0", "0", "100000", "1", "4102444800000", "-1"})
 	args := []string{"RESTORE", dst, ttl, DumpOf(src)}
+	if rng.Intn(5) == 0 {
+		// a payload that passes the outer checks and fails inside: refused, and nothing may have happened to dst
+		args[3] = CorruptDumpOf(src)
+	}
 	if rng.Intn(3) > 0 {
 		args = append(args, "REPLACE")
 	}
